@@ -11,7 +11,9 @@ _C = "conn_unix.go"
 rule(_C, r"atomic\.LoadInt32\(&c\.readEvents\)", "verifREvLoad(c)", minimum=1)
 rule(_C, r"atomic\.CompareAndSwapInt32\(&c\.readEvents, cnt, cnt\+1\)", "verifREvCAS(c, cnt, cnt+1)", minimum=1)
 rule(_C, r"atomic\.AddInt32\(&c\.readEvents, -1\)", "verifREvAdd(c, -1)", minimum=1)
-rule(_C, r"atomic\.LoadInt32\(&c\.readEOF\)", "verifEOFLoad(c)", minimum=2)
+rule(_C, r"atomic\.LoadInt32\(&c\.readEOF\)", "verifEOFLoad(c)", minimum=1)
+# the re-arm of a one-shot descriptor by the read task that lowered the counter to 0
+rule(_C, r"(?m)^(\s+)if g\.isOneshot \{\n\s+c\.ResetPollerEvent\(\)\n", r"\1if g.isOneshot {\n\1\tverifRearm(c)\n", minimum=1)
 # doRead's call of readStream (the syscall inside readStream stays where rules_sys.py expects it)
 rule(_C, r"return c\.readStream\(b\)", "return c.verifReadStream(b)", minimum=1)
 # keep the file's "sync/atomic" import used whatever else the file does with it
